@@ -231,7 +231,8 @@ def check_postprocessing(ctx):
     for n in ast.walk(mo):
         if isinstance(n, ast.Assign) and isinstance(n.targets[0], ast.Name):
             d.setdefault(n.targets[0].id, []).append(A.norm(n.value))
-    ok = "int(self.raw_measurement_outcome)" in d.get("m", []) and any(A.norm(r.value) == "m" for r in A.returns(mo))
+    mvars = [k for k, vs in d.items() if "int(self.raw_measurement_outcome)" in vs]
+    ok = len(mvars) == 1 and any(A.norm(r.value) == mvars[0] for r in A.returns(mo))
     raw_ret = any(isinstance(n, ast.If) and A.norm(n.test) == "notself.post_process" and any(isinstance(s, ast.Return) and A.norm(s.value) == "int(self.raw_measurement_outcome)" for s in n.body) for n in ast.walk(mo))
     ctx.check("C10.M", "measurement_outcome:raw-when-not-post-processing", ok and raw_ret, "measurement_outcome does not return the raw outcome when post_process is off / the corrected raw outcome otherwise", emr.loc(mo))
     bs = emr.methods.get("bell_state")
